@@ -35,6 +35,24 @@ type Ctx struct {
 	globalHook func(name string) (*Term, bool)
 	fuel       int             // 0 = default
 	unfoldOnly map[string]bool // nil = every recursive definition
+	unfoldDepth map[string]int // per definition depth (default 1, or cx.fuel)
+	epochs     map[string]*State // tree snapshots other than the entry tree, by epoch name
+	epochKeys  map[string]string
+}
+
+// epochOf splits a recursive-definition symbol into its base name and tree epoch.
+func epochOf(op string) (string, string) {
+	if i := strings.Index(op, "!e"); i > 0 {
+		return op[:i], op[i+1:]
+	}
+	return op, ""
+}
+
+func (cx *Ctx) treeFor(epoch string) *State {
+	if epoch == "" {
+		return cx.tree
+	}
+	return cx.epochs[epoch]
 }
 
 func NewCtx(enc *Enc, spec *Spec, unit string) *Ctx {
@@ -96,14 +114,15 @@ func (s *State) Get(c *Ctx, name string) *Term {
 
 // Env is an evaluation environment for spec expressions.
 type Env struct {
-	cx   *Ctx
-	st   *State
-	old  *State
-	vars map[string]*Term
+	cx    *Ctx
+	st    *State
+	old   *State
+	vars  map[string]*Term
+	epoch string // which tree snapshot recursive spec functions read ("" = the unit's entry tree)
 }
 
 func (e *Env) with(vars map[string]*Term) *Env {
-	n := &Env{cx: e.cx, st: e.st, old: e.old, vars: map[string]*Term{}}
+	n := &Env{cx: e.cx, st: e.st, old: e.old, vars: map[string]*Term{}, epoch: e.epoch}
 	for k, v := range e.vars {
 		n.vars[k] = v
 	}
@@ -149,7 +168,7 @@ func (env *Env) EvalBool(x *Expr) (*Term, error) {
 func (cx *Ctx) ResolveType(name string) (string, types.Type) {
 	enc := cx.enc
 	if strings.HasPrefix(name, "`") {
-		return name[1:], nil
+		return strings.Trim(name, "`"), nil
 	}
 	switch name {
 	case "int", "Int":
@@ -268,7 +287,7 @@ func (env *Env) ev(x *Expr) *Term {
 		if env.old == nil {
 			efail("old() not allowed here")
 		}
-		n := &Env{cx: env.cx, st: env.old, old: env.old, vars: env.vars}
+		n := &Env{cx: env.cx, st: env.old, old: env.old, vars: env.vars, epoch: env.epoch}
 		return n.ev(x.X)
 	case "unary":
 		a := env.ev(x.X)
@@ -681,8 +700,14 @@ func (env *Env) call(x *Expr) *Term {
 				efail("argument %d of %s: got sort %s, want %s", i+1, x.Name, args[i].Sort, f.Args[i])
 			}
 		}
-		r := App(x.Name, f.Ret, args...)
-		if rd, ok := spec.recdefs[x.Name]; ok && rd.RetT != nil {
+		name := x.Name
+		rd, isRec := spec.recdefs[x.Name]
+		if isRec && env.epoch != "" {
+			name = x.Name + "!" + env.epoch
+			enc.declFun(name, f.Args, f.Ret)
+		}
+		r := App(name, f.Ret, args...)
+		if isRec && rd.RetT != nil {
 			r.T = rd.RetT
 		}
 		return r
@@ -710,7 +735,7 @@ func (env *Env) callDef(d *Def, args []*Term) *Term {
 		vars[p.Name] = a
 	}
 	// defs see only their parameters (hygiene), but the caller's state
-	n := &Env{cx: env.cx, st: env.st, old: env.old, vars: vars}
+	n := &Env{cx: env.cx, st: env.st, old: env.old, vars: vars, epoch: env.epoch}
 	r := n.ev(d.Body)
 	if d.Ret != "" {
 		s, gt := env.cx.ResolveType(d.Ret)
